@@ -187,6 +187,7 @@ fn main() {
             println!("{}", serde_json::json!({"outcome": engine::outcome_to_json(&o)}));
             0
         }
+        "killchild" => crashx::kill_child_main(&args[2]),
         "replay" => {
             let data = std::fs::read(&args[2]).expect("read replay file");
             let v: Value = serde_json::from_slice(&data).expect("replay json");
